@@ -12,7 +12,7 @@
    of the case; exactly for integers (indices, ranks, inside/outside, node counts), 1e-9 relative
    for coordinates.
 """
-import json, math, os, random, collections, time, types, hashlib, multiprocessing, concurrent.futures
+import json, math, os, random, collections, time, types, hashlib, shutil, multiprocessing, concurrent.futures
 import vlib
 from vlib import Check, Broken, log
 
@@ -455,6 +455,13 @@ def compare_shard(args):
 
 def run(tier):
     ck = Check("C16", "model_checking", tier)
+    try:
+        return check(ck, tier)
+    finally:
+        shutil.rmtree(ck.work, ignore_errors=True)      # the case files are large
+
+
+def check(ck, tier):
     vlib.build_lib()
     exe = vlib.build_harness("grid_run")
     w = ck.work
